@@ -3,8 +3,8 @@
    (hypotheses of the theorems; sampled against scipy.stats.norm.ppf at run time). *)
 From Coq Require Import Reals QArith List.
 From Zepid Require Import Base.Wald Base.QSum Base.Rows Model.Estimators Model.Variance Proofs.VarianceProofs
-     GenProofs.GenProofs_calc GenProofs.GenProofs_ic GenProofs.GenProofs_pool GenProofs.GenProofs_wprod GenProofs.GenProofs_xfvar GenProofs.GenProofs_drci GenProofs.GenProofs_xftmle.
-From ZepidGen Require Import Gen_calc_R Gen_ic_Q Gen_aipw_Q Gen_pool_Q Gen_wprod_Q Gen_xfvar_Q Gen_drci_R Gen_xftmle_Q.
+     GenProofs.GenProofs_calc GenProofs.GenProofs_ic GenProofs.GenProofs_pool GenProofs.GenProofs_wprod GenProofs.GenProofs_xfvar GenProofs.GenProofs_drci GenProofs.GenProofs_xftmle GenProofs.GenProofs_stmle.
+From ZepidGen Require Import Gen_calc_R Gen_ic_Q Gen_aipw_Q Gen_pool_Q Gen_wprod_Q Gen_xfvar_Q Gen_drci_R Gen_xftmle_Q Gen_stmle_Q Gen_stmle_R.
 Import ListNotations.
 
 Definition zq_ok (zq : R -> R) : Prop :=
@@ -111,6 +111,15 @@ Proof. exact (gen_tmle_or zq). Qed.
 Theorem C06_src_tmle_rd_at005 : forall est se, se <> 0 ->
   (tmle_ci_rd_at005_R est se = wald_lin zq est se (5 / 100) <-> zcrit zq (5 / 100) = 196 / 100).
 Proof. exact (gen_tmle_rd_at005 zq). Qed.
+(* --- StochasticTMLE.fit in the CURRENT source: SE = sqrt(variance)/sqrt(n), i.e. SE^2 = variance / n, and both intervals are the
+   Wald interval of the marginal outcome and that SE for every alpha *)
+Theorem C06_src_stmle_se : forall v n, 0 <= v -> 0 < n ->
+  stmle_marginal_se_R v n * stmle_marginal_se_R v n = v / n /\ stmle_conditional_se_R v n = stmle_marginal_se_R v n /\
+  0 <= stmle_marginal_se_R v n.
+Proof. exact gen_stmle_se. Qed.
+Theorem C06_src_stmle_ci : forall al est se,
+  stmle_marginal_ci_R zq al est se = wald_lin zq est se al /\ stmle_conditional_ci_R zq al est se = wald_lin zq est se al.
+Proof. exact (gen_stmle_ci zq). Qed.
 End C06R.
 
 (* --- influence-curve variances (AIPTW, TMLE, StochasticTMLE), IPTW sandwich closed form, cross-fit pooling (Q) *)
@@ -216,6 +225,14 @@ Theorem C06_xf_tmle_variance_nonneg : forall est parts n, parts <> [] -> Forall 
   0 <= xf_tmle_var_rd est parts n /\ 0 <= xf_tmle_var_rr parts n /\ 0 <= xf_tmle_var_or parts n /\ 0 <= xf_tmle_var_rr_code parts n.
 Proof. exact xf_tmle_var_nonneg. Qed.
 
+(* ---- StochasticTMLE variance estimators in the CURRENT source: the mean of the squared influence values; over n it is stmle_var *)
+Theorem C06_src_stmle_marginal_variance : forall rows psi, stmle_marginal_variance_Q rows psi == mean_sq (map (stmle_ic psi) rows).
+Proof. exact gen_stmle_marginal_variance. Qed.
+Theorem C06_src_stmle_conditional_variance : forall rows psi, stmle_conditional_variance_Q rows psi == mean_sq (map stmle_ic_cond rows).
+Proof. exact gen_stmle_conditional_variance. Qed.
+Theorem C06_src_stmle_var : forall rows psi, stmle_marginal_variance_Q rows psi / Qlen rows == stmle_var (map (stmle_ic psi) rows).
+Proof. exact gen_stmle_var. Qed.
+
 Print Assumptions C06_wald_lin_contains.
 Print Assumptions C06_wald_lin_nested.
 Print Assumptions C06_wald_log_contains.
@@ -268,3 +285,8 @@ Print Assumptions C06_src_xf_tmle_variance_rr_refuted.
 Print Assumptions C06_xf_influence_values_are_tmle.
 Print Assumptions C06_src_xf_targeting_covariates.
 Print Assumptions C06_xf_tmle_variance_nonneg.
+Print Assumptions C06_src_stmle_se.
+Print Assumptions C06_src_stmle_ci.
+Print Assumptions C06_src_stmle_marginal_variance.
+Print Assumptions C06_src_stmle_conditional_variance.
+Print Assumptions C06_src_stmle_var.
